@@ -49,8 +49,13 @@ def operator_list(quick):
     return out
 
 
+SELECT = [None]  # selection applied to every space of the current labelling graph (junction grids need a proper selection)
+
+
 def spec_of(kind, swapped=()):
     s = {"kind": kind, "swapped": tuple(swapped)}
+    if SELECT[0] is not None:
+        s["sel"] = SELECT[0]
     if kind in ("P1", "RWG", "SNC"):
         s["inc"] = True
     return s
@@ -210,7 +215,15 @@ def canon(state):
     return (v.tobytes(), e.tobytes(), d.tobytes(), sw)
 
 
-def check_labelling(ctx, name, oplist, depth, full, classes):
+def check_labelling(ctx, name, oplist, depth, full, classes, select=None):
+    SELECT[0] = select
+    try:
+        _check_labelling(ctx, name, oplist, depth, full, classes)
+    finally:
+        SELECT[0] = None
+
+
+def _check_labelling(ctx, name, oplist, depth, full, classes):
     base_mesh = meshes.get(name, ctx.seed)
     if full:
         # give every element its own domain index so that single elements can be reversed + flagged
@@ -259,7 +272,7 @@ def check_labelling(ctx, name, oplist, depth, full, classes):
             classes[0] |= ec
             classes[1] |= vc
             grid2 = SP.make_grid(mesh2)
-            case0 = {"sub": "labelling", "mesh": name, "full": full, "word": [list(g) for g in h2]}
+            case0 = {"sub": "labelling", "mesh": name, "full": full, "word": [list(g) for g in h2], "select": SELECT[0]}
             for op in oplist:
                 label, family, opn, k, dk, tk = op
                 case = dict(case0, operator=label)
@@ -341,6 +354,12 @@ def run(ctx):
         check_labelling(ctx, name, small, 2 if quick else 3, True, classes)
     for name in (["tet", "fan4"] if quick else ["fan4", "tet", "cube12", "nested", "screen2x2"]):
         check_labelling(ctx, name, small, 1 if quick else 2, False, classes)
+    # junction grid: three triangles around one edge, every space restricted to two of them (edge functions are defined by the two
+    # selected neighbours; which of the three elements has the lowest index changes along the graph)
+    junction_ops = [op for op in small if op[0] in ("identity[RWG,SNC]", "max-E k=1.3", "lap-single_layer[P1,DP1]", "identity[P1,DP0]")]
+    before = ctx.states
+    check_labelling(ctx, "book3", junction_ops, 2 if quick else 3, True, [set(), set()], select=("segments", (1, 2)))
+    ctx.cov["junction_labelling_states"] = ctx.states - before
     ctx.cov["edge_adjacency_classes"] = len(classes[0])
     ctx.cov["vertex_adjacency_classes"] = len(classes[1])
     ctx.require(len(classes[0]) == 18, "all 18 (test remap, trial remap) edge classes realised in the labelling graph: %d" % len(classes[0]))
@@ -361,4 +380,7 @@ def replay(ctx, case):
     if case["sub"] in ("motion", "scaling"):
         check_motion_and_scaling(ctx, case["mesh"], oplist, False)
     else:
-        check_labelling(ctx, case["mesh"], oplist, len(case["word"]), case.get("full", False), [set(), set()])
+        sel = case.get("select")
+        if sel:
+            sel = (sel[0], tuple(sel[1]))
+        check_labelling(ctx, case["mesh"], oplist, len(case["word"]), case.get("full", False), [set(), set()], select=sel)
